@@ -163,6 +163,7 @@ func c04JoinAccept(c *engine.Case, class string, j jaValue, jt byte, joinEUI [8]
 	}
 
 	// encryption: AES-decrypt in ECB over payload|MIC with the same key
+	observe(&p) // the server logs the answer it is about to encrypt
 	if err := p.EncryptJoinAcceptPayload(keyOf(key)); err != nil {
 		c.Fail(class+"/encrypt-error", err.Error()+" "+desc(), nil)
 		return
@@ -202,6 +203,7 @@ func c04JoinAccept(c *engine.Case, class string, j jaValue, jt byte, joinEUI [8]
 		c.Fail(class+"/decode-error", fmt.Sprintf("encrypted join-accept %x refused: %v", wire, err), nil)
 		return
 	}
+	observe(&q) // a receiver logs the frame it decoded
 	// the receive buffer is used for the next packet before the join-accept is decrypted
 	for k := range rxBuf {
 		rxBuf[k] ^= 0xA5
@@ -210,6 +212,7 @@ func c04JoinAccept(c *engine.Case, class string, j jaValue, jt byte, joinEUI [8]
 		c.Fail(class+"/decrypt-error", fmt.Sprintf("DecryptJoinAcceptPayload: %v; %s", err, desc()), nil)
 		return
 	}
+	observe(&q) // the device logs what it decrypted
 	if [4]byte(q.MIC) != want {
 		c.Fail(class+"/decrypt-mic", fmt.Sprintf("decrypted MIC %x, original %x", q.MIC[:], want[:]), nil)
 	}
@@ -505,6 +508,7 @@ func runC04(r *engine.Run) {
 			if err := q.UnmarshalBinary(append([]byte{0x20}, spec.ECBDecrypt(key, plain)...)); err != nil {
 				return nil, err
 			}
+			observe(&q) // a receiver logs the frame it decoded
 			if err := q.DecryptJoinAcceptPayload(keyOf(key)); err != nil {
 				return nil, err
 			}
